@@ -433,6 +433,52 @@ def _exec_ints(doc, res):
                    composer.compose_numeric_array, arr, size)
     if ok and bytes(composer.composed_bytes) != b''.join(v.to_bytes(size, ref) for v in arr):
         res.violation((PROPERTY, 'integer-array-differs', size, order), 'composed exactly as the byte order dictates', '')
+    # ... and an array is rejected as a whole when any one of its items does not fit, wherever the item stands
+    limit = 2 ** (8 * size)
+    for position, bad in ((0, limit), (1, limit + 5), (2, 2 ** (8 * size + 8) - 1), (0, -1), (3, limit)):
+        items = [1, 2, 3, 4]
+        items[position] = bad
+        composer = ComposerBinary(byte_order=byte_order)
+        try:
+            composer.compose_numeric_array(items, size)
+            outcome = 'ok:' + bytes(composer.composed_bytes).hex()
+        except InvalidValue:
+            outcome = 'InvalidValue'
+        except (core.RunTimeout, KeyboardInterrupt, SystemExit):
+            raise
+        except BaseException as exc:  # pylint: disable=broad-except
+            outcome = type(exc).__name__
+        res.stats['fault.out_of_range_value'] += 1
+        if outcome != 'InvalidValue':
+            res.violation((PROPERTY, 'overflow-not-rejected', size, order, 'array', outcome.split(':')[0]),
+                          'a value that does not fit the width is rejected with an invalid-value error rather than truncated',
+                          'compose_numeric_array(%r, %d) -> %s' % (items, size, outcome))
+            break
+    # the byte order is an attribute of the parser / composer: assigned after construction it rules what follows
+    other = ByteOrder.LITTLE_ENDIAN if ref == 'big' else ByteOrder.BIG_ENDIAN
+    sample = [0x010203040506070809 % limit, limit - 2, 1]
+    for value in sample:
+        composer = ComposerBinary(byte_order=other)
+        parser = ParserBinary(value.to_bytes(size, ref) * 2, byte_order=other)
+        try:
+            composer.byte_order = byte_order
+            parser.byte_order = byte_order
+        except Exception:  # the attribute cannot be assigned: nothing to check  # pylint: disable=broad-except
+            break
+        ok, _ = _guard(res, (PROPERTY, 'integer-compose-failed', size, order, 'reassigned'), 'a value that fits is composed',
+                       composer.compose_numeric, value, size)
+        ok2, _ = _guard(res, (PROPERTY, 'integer-parse-failed', size, order, 'reassigned'), 'a value of the width is parsed',
+                        parser.parse_numeric_array, 'x', 2, size, int)
+        if not (ok and ok2):
+            break
+        res.stats['probe.byte_order_assigned_after_construction'] += 1
+        if bytes(composer.composed_bytes) != value.to_bytes(size, ref) or list(parser['x']) != [value, value]:
+            res.violation((PROPERTY, 'byte-order-assigned-later-ignored', size, order),
+                          'composed and parsed exactly as the chosen byte order dictates',
+                          'byte_order set to %s after construction with %s: %d composed as %s (expected %s), %s parsed as %r' % (
+                              order, other.name, value, bytes(composer.composed_bytes).hex(), value.to_bytes(size, ref).hex(),
+                              (value.to_bytes(size, ref) * 2).hex(), list(parser['x'])))
+            break
     res.event('ints', size, order, checked)
     res.sim_events += checked
     res.stats['ints.values_checked'] += checked
